@@ -368,7 +368,9 @@ class HistogramDensityMethod(BatchDetector):
         self.total_epsilon = 0
 
         if self.detect_batch == 1:
-            self.update(test_proxy)
+            # the proxy batch is internal: passed as an array it does not
+            # register column names the user never supplied
+            self.update(test_proxy.to_numpy())
 
     def _build_histograms(self, dataset, min_values, max_values):
         """
